@@ -193,6 +193,8 @@ impl HdlcDeframer {
                     );
                 } else if bits.len() / 8 < self.min_size {
                     trace!("Packet too short: {} < {}", bits.len() / 8, self.min_size);
+                } else if self.strip_checksum && bits.len() / 8 < 2 {
+                    trace!("Packet too short to hold a checksum: {}", bits.len() / 8);
                 } else {
                     let bytes: Vec<u8> = (0..bits.len())
                         .step_by(8)
